@@ -56,7 +56,7 @@ proof fn lemma_enc_input_push(s: Seq<CompressRequest>, m: CompressRequest, i: in
     ensures enc_input(s.push(m), i) == enc_input(s, i) + msg_bytes(m, i)
 { assert(s.push(m).drop_last() =~= s); }
 
-//!fn src/app/log.rs Compressor::run#thread rules=R1,R7,R10,R12,R17 props=C08
+//!fn src/app/log.rs Compressor::run#thread rules=R1,R7,R10,R12,R17 props=C08,C06
 fn run_thread(regs: &Vec<path::PathBuf>, req_rx__0: mpsc::Receiver<CompressRequest>, shutdown: &sync::Arc<sync::atomic::AtomicBool>, x: usize, Tracked(w): Tracked<&mut World>) -> ⟦(res: ⟧Result<(), MonorailError>⟦)⟧
 @    requires
 @        req_rx__0.taken.len() == 0,
